@@ -26,6 +26,8 @@ def invalid_by_construction():
         # a peer that talks HTTP in the wrong direction: the first line is a status line
         "response-status-line": b"HTTP/1.1 200 OK\r\nContent-Length: 0\r\n\r\n", "response-then-upgrade": b"HTTP/1.1 200 OK\r\n\r\n" + g,
         "response-101-then-upgrade": b"HTTP/1.1 101 Switching Protocols\r\nUpgrade: websocket\r\nConnection: Upgrade\r\n\r\n" + g,
+        # paths are case sensitive
+        "path-in-upper-case": g.replace(p, b"/API/JET/"), "path-one-letter-other-case": g.replace(p, b"/api/jeT/"), "path-mixed-case-with-suffix": g.replace(p, b"/aPi/jet/x"),
         "wrong-path": g.replace(p, b"/other/"), "path-prefix-only": g.replace(p, b"/api/je"), "wrong-method": g.replace(b"GET", b"POST"),
         "http-1.0": g.replace(b"HTTP/1.1", b"HTTP/1.0"), "http-0.9": g.replace(b" HTTP/1.1", b""), "no-upgrade-header": g.replace(b"Upgrade: websocket\r\n", b""),
         "no-connection-header": g.replace(b"Connection: Upgrade\r\n", b""), "version-12": g.replace(b"Version: 13", b"Version: 12"),
